@@ -129,7 +129,10 @@ def make_translator(with_rst):
         dirb, nxtb = B(I["dir"]), B(I["nxt"])
         dec = ts.instance(ULPIRxEventDecoder)
         win = ts.instance(ULPIRegisterWindow)
-        wfsm = ts.fsm("register_window.fsm_state")
+        # the children are the real instances (found by class); their registers / FSMs are addressed through the instance's
+        # position in the hierarchy, never through the name UTMITranslator.elaborate gives the submodule
+        from .c10_unsupported_requests_stall import instance_fsm, instance_sig, instance_regs
+        wfsm = instance_fsm(ts, win)
 
         c.require("phy_nxt_low_when_dir_falls", z3.Implies(z3.And(pdir == 1, z3.Not(dirb)), z3.Not(nxtb)),
                   why="ULPI 1.1: the cycle in which the PHY deasserts DIR is a bus turnaround; the PHY does not assert NXT in it")
@@ -139,8 +142,12 @@ def make_translator(with_rst):
                       "data bytes only while RxActive, as it last signalled it (DIR rising with NXT / RxCmd bit 4), is set")
 
         # ---- abstraction map
-        c.inv("past_dir_is_prev_dir", ts.sig("past_dir") == pdir)
-        c.inv("decoder_delayed_dir_is_prev_dir", ts.sig("rxevent_decoder.direction_delayed") == pdir)
+        # the translator's own one-cycle history of DIR (a local Signal of elaborate()): whichever 1-bit register of the
+        # translator's own module is inductively equal to the previous DIR (Houdini) -- its name is not relied upon
+        for j, (own_name, var) in enumerate(instance_regs(ts, d)):
+            if var.size() == 1:
+                c.candidate(f"translator_register_{j}_{own_name or 'anonymous'}_is_prev_dir", var == pdir)
+        c.inv("decoder_delayed_dir_is_prev_dir", instance_sig(ts, dec, "direction_delayed") == pdir)
         c.inv("window_fsm_legal", wfsm.legal())
         c.inv("window_never_reads", z3.Not(wfsm.is_("START_READ", "SEND_READ_ADDRESS", "READ_TURNAROUND", "READ_COMPLETE")))
         c.inv("rxcmd_mask_never_set", ts.of(dec.register_operation_in_progress) == 0)
